@@ -179,6 +179,7 @@ func init() {
 		"crypto/internal/sysrand.Read": func(fr *frame, a []value) value { extCryptoRandRead(fr, a); return nil },
 		"crypto/internal/fips140/drbg.Read": func(fr *frame, a []value) value { extCryptoRandRead(fr, a); return nil },
 		"crypto/internal/randutil.MaybeReadByte": extNop,
+		"crypto/rand.Int": extCryptoRandInt,
 
 		// formatting (opaque)
 		"fmt.Sprintf":  extSprintf,
@@ -959,4 +960,74 @@ func extSortSlice(fr *frame, a []value) value {
 		}
 	}
 	return nil
+}
+
+// crypto/rand.Int(rand, max): mirrors the real algorithm (read ceil(bitlen/8)
+// bytes from the reader, mask the top byte, accept if below max) for the
+// first attempt; rejected draws are assumed away (the retry loop only repeats
+// the same step with fresh bytes). Only max <= 2^64 is supported. The bytes
+// come from the reader argument, so native replay with a scripted
+// crypto/rand.Reader consumes exactly the same stream.
+func extCryptoRandInt(fr *frame, a []value) value {
+	mp := a[1].(*value)
+	if mp == nil {
+		panic(runtimeError("invalid memory address or nil pointer dereference"))
+	}
+	bi := (*mp).(structure)
+	abs, _ := bi[1].([]value)
+	if bi[0].(bool) || len(abs) == 0 {
+		panic(targetPanic{iface{types.Typ[types.String], "crypto/rand: argument to Int is <= 0"}})
+	}
+	if len(abs) > 1 {
+		panic(unsupported("crypto/rand.Int with max >= 2^64"))
+	}
+	mxv, ok := abs[0].(uint)
+	if !ok {
+		panic(unsupported("crypto/rand.Int with symbolic max"))
+	}
+	nm1 := uint64(mxv) - 1
+	bitLen := 64 - bitsLeadingZeros(nm1)
+	if bitLen == 0 {
+		cell := value(structure{false, []value(nil)})
+		return tuple{&cell, iface{}}
+	}
+	k := (bitLen + 7) / 8
+	b := uint(bitLen % 8)
+	if b == 0 {
+		b = 8
+	}
+	buf := makeByteSlice(k)
+	rd := a[0].(iface)
+	if rd.t == nil {
+		panic(runtimeError("invalid memory address or nil pointer dereference"))
+	}
+	readFn := findMethod(fr, rd.t, "Read")
+	call(fr.i, fr, token.NoPos, readFn, []value{rd.v, buf})
+	var v *smt.Term
+	for i := 0; i < k; i++ {
+		bt := termOf(buf[i])
+		if i == 0 {
+			if b < 8 {
+				bt = smt.Extract(bt, int(b)-1, 0)
+			}
+			v = bt
+			continue
+		}
+		v = smt.Concat(v, bt)
+	}
+	v = smt.Zext(v, 64)
+	fr.ctx().Assume(smt.Cmp(smt.OUlt, v, smt.Const(64, uint64(mxv))))
+	cell := value(structure{false, []value{mkVal(types.Uint, v)}})
+	return tuple{&cell, iface{}}
+}
+
+func bitsLeadingZeros(x uint64) int {
+	n := 0
+	for i := 63; i >= 0; i-- {
+		if x>>uint(i)&1 != 0 {
+			break
+		}
+		n++
+	}
+	return n
 }
